@@ -138,6 +138,10 @@ def plan(tier):
         alph = OUTCOMES if len(ids) <= (2 if tier == "quick" else 3) else ["ok", "s4", "tid", "ctl"]
         vecs = list(itertools.product(alph, repeat=len(ids)))
         work.append(("coap_read", {"ids": ids, "replies": vecs[:1], "vectors": vecs}))
+    # the same id more than once in one request (callers pass what they have): every occurrence is answered alike by the accessory
+    for ids in ([9, 9, 10], [9, 10, 9], [10, 9, 9, 2], [13, 13, 41]):
+        vecs = [v for v in itertools.product(["ok", "s4", "s6", "tid", "empty"], repeat=len(ids)) if all(v[a] == v[b] for a in range(len(ids)) for b in range(len(ids)) if ids[a] == ids[b])]
+        work.append(("coap_read", {"ids": ids, "replies": vecs[:1], "vectors": vecs}))
     for ids in WRITE_SETS:
         alph = [o for o in OUTCOMES if o != "empty"] if len(ids) <= (2 if tier == "quick" else 3) else ["ok", "s6", "tid", "ctl"]
         vecs = list(itertools.product(alph, repeat=len(ids)))
